@@ -35,17 +35,19 @@ def decTopo (s : String) : Option Topo :=
 
 def decSig (s : String) : Option Sig :=
   match s.splitOn ";" with
-  | [id, name, sev, th, fh, ent, tol, nc, ld, req, pat] => do
+  | [id, name, sev, th, fh, ent, tol, nc, ld, req, pat, extra, refs] => do
+    let extra ← decStr extra; let refs ← decStrList refs
     let id ← decStr id; let name ← decStr name; let sev ← decStr sev; let th ← decStr th; let fh ← decStr fh
     let ent ← parseRat ent; let tol ← parseRat tol; let nc ← nc.toInt?; let ld ← ld.toInt?
     let req ← decStrList req; let pat ← decStrList pat
     pure { id := id, name := name, severity := sev, topoHash := th, fuzzyHash := fh, entropy := ent, tol := tol,
-           nodeCount := nc, loopDepth := ld, required := req, patterns := pat }
+           nodeCount := nc, loopDepth := ld, required := req, patterns := pat, extra := extra, refs := refs }
   | _ => none
 
 def encSig (s : Sig) : String :=
   String.intercalate ";" [encStr s.id, encStr s.name, encStr s.severity, encStr s.topoHash, encStr s.fuzzyHash,
-    showRat s.entropy, showRat s.tol, toString s.nodeCount, toString s.loopDepth, encStrList s.required, encStrList s.patterns]
+    showRat s.entropy, showRat s.tol, toString s.nodeCount, toString s.loopDepth, encStrList s.required, encStrList s.patterns,
+    encStr s.extra, encStrList s.refs]
 
 def decSigs (s : String) : Option (List Sig) :=
   if s == "" then some [] else (s.splitOn "|").mapM decSig
